@@ -36,6 +36,11 @@ FACT_ARGS = {
     'p(v0,f(v0))': [('v', 0), ('f', 'f', (('v', 0),))],
     'p(g(v0,v1),v1)': [('f', 'g', (('v', 0), ('v', 1))), ('v', 1)],
 }
+# templates used by C13 only: partial lists (open tail) - to_python leaves them unspecified, so C15 does not use them
+EXTRA_TEMPLATES = {
+    '[v0|v1]': ('f', '.', (('v', 0), ('v', 1))),
+    'f([a,v0|v1])': ('f', 'f', (('f', '.', (('a', 'a'), ('f', '.', (('v', 0), ('v', 1))))),)),
+}
 PAT_READ = [['v0']]                                                  # p(W0): reads the stored term back
 PAT_2ND = [['v0', 'v1', 'int']]
 PAT_RICH = [['v0', 'v1', 'int', 'A', 'F1'], ['v0', 'v1', 'int']]     # patterns of the uses obligation
@@ -71,7 +76,7 @@ def make_body(template, fam, info):
     BINDL, P1L, P2L = FAMILIES[fam]
     spec, nc = spec_for(nb, fam)
     ix = ch.index_of(spec)
-    targs = FACT_ARGS[template] if template in FACT_ARGS else [TEMPLATES[template]]
+    targs = FACT_ARGS[template] if template in FACT_ARGS else [dict(TEMPLATES, **EXTRA_TEMPLATES)[template]]
 
     def body(vals):
         ch.install_registry(False)
@@ -176,7 +181,58 @@ def make_body(template, fam, info):
             if v._is_bound:
                 ch.note(info, 'variable still bound at the end')
                 return ch.VIOLATED
-        return ch.HOLDS_NONTRIVIAL if (exp and (plan or fam == 'uses2')) else ch.HOLDS_TRIVIAL
+        return ch.HOLDS_NONTRIVIAL if (exp and (plan or fam == 'uses2' or template in EXTRA_TEMPLATES)) else ch.HOLDS_TRIVIAL
+    return spec, body
+
+
+def make_body_d(info):
+    """a non-ground stored fact p(f(_), _) used by an enumeration and by a retract/query solution that is held open
+    at the same time, in a symbolic order: what one use binds, the other must not see"""
+    spec = [('c', 'int', None), ('order', 'int', '0 <= order <= 2'), ('second', 'int', '0 <= second <= 1')]
+
+    def body(vals):
+        c, order, second = vals
+        ch.install_registry(False)
+        yp = ch.new_engine()
+        yp.assert_fact(yp.atom('p'), [yp.functor('f', [yp.variable()]), yp.variable()])
+        X, Y, Z = yp.variable(), yp.variable(), yp.variable()
+        try:
+            e1 = yp.query('p', [X, Y])
+            other_goal = yp.functor('p', [yp.functor('f', [c]), Z])
+            e2 = yp.query('retract', [other_goal]) if second == 0 else yp.query('p', [yp.functor('f', [c]), c])
+            if order == 1:
+                steps = (e2, e1)
+            elif order == 2:
+                steps = (e1, e1)
+            else:
+                steps = (e1, e2)
+            seen = []
+            for gen_ in steps:
+                try:
+                    next(gen_)
+                    names = {}
+                    seen.append((show(X, names), show(Y, names)))
+                except StopIteration:
+                    seen.append(None)
+            e1.close()
+            e2.close()
+        except Exception as e:
+            ch.note(info, 'raised %s: %s', type(e).__name__, str(e)[:120])
+            return ch.VIOLATED
+        # whenever e1 has produced its answer it shows the stored term with variables of its own: f(_A), _B
+        fresh = (('f', 'f', (('v', 0),)), ('v', 1))
+        unbound = (('v', 0), ('v', 1))
+        if order == 0:
+            exp = [fresh, fresh]
+        elif order == 1:
+            # retract ran first: the fact is gone when e1 starts (second == 0); a plain query leaves it there
+            exp = [unbound, None] if second == 0 else [unbound, fresh]
+        else:
+            exp = [fresh, None]
+        if seen != exp:
+            ch.note(info, 'order %r, second use %r: observed %r, expected %r', order, second, seen, exp)
+            return ch.VIOLATED
+        return ch.HOLDS_NONTRIVIAL
     return spec, body
 
 
@@ -211,6 +267,9 @@ def units(tier, seed):
     for t in FACT_ARGS:
         for inside in (False, True):
             add('storage', t, 1, True, inside, 300 if tier == 'quick' else 1500)
+    for t in EXTRA_TEMPLATES:
+        add('storage', t, 1, True, False, 300 if tier == 'quick' else 1500)
+        add('uses', t, 0, False, True, 300 if tier == 'quick' else 1500)
     for t in names:
         add('uses2', t, 0, False, False, 300 if tier == 'quick' else 1500)
     for t in names:
@@ -226,10 +285,15 @@ def units(tier, seed):
                         add('storage', t, nbefore, after, inside, 3000)
                 add('uses', t, 1, False, inside, 1500)
                 add('uses', t, 1, True, inside, 3000)
+    us.append(dict(id='d.simultaneous-uses', template='-', family='d', fixed={}, ob='C13.d', timeout=200, weight=20,
+                   bounds='one non-ground fact p(f(_), _); an enumeration and a retract/query solution held open together, 3 orders'))
     return us
 
 
 def build(u):
     info = {}
+    if u['family'] == 'd':
+        spec, body = make_body_d(info)
+        return ch.harness_from_spec(u['id'], spec, u['fixed'], body, info=info)
     spec, body = make_body(u['template'], u['family'], info)
     return ch.harness_from_spec(u['id'], spec, u['fixed'], body, info=info)
